@@ -25,7 +25,7 @@ pub const REG_LANGS: [L; 2] = [L::None, L::En];
 pub const RECS: [(usize, &str, usize); 3] = [(1, "alpha beta", 5), (2, "beta", 9), (3, "al", 7)];
 pub const LIMITS: [usize; 3] = [0, 1, 10];
 pub const MARKERS: [(&str, &str); 2] = [("[", "]"), ("<", ">")];
-pub const QUERIES: [&str; 3] = ["", "be", "alpha"];
+pub const QUERIES: [&str; 4] = ["", "be", "alpha", "al "];
 
 #[derive(Clone, Debug)]
 struct MStore {
@@ -285,7 +285,9 @@ impl Sys for RegSys {
 
 pub struct C20 {
     tier: Tier,
-    configs: Vec<(Vec<usize>, u32, u32, usize)>, // ids, merged depth, unmerged depth, start state
+    /// ids, merged depth, unmerged depth, start state, index of the first operation after the start state
+    /// (the search is partitioned by its first operation so that the partitions run on separate workers)
+    configs: Vec<(Vec<usize>, u32, u32, usize, usize)>,
 }
 
 /// start states: the empty registry, and a non-initial one where store `ids[0]` already holds two records
@@ -297,14 +299,32 @@ fn start(ids: &[usize], k: usize) -> Vec<Op> {
 }
 
 impl C20 {
-    pub fn new(tier: Tier) -> C20 {
+    /// a shallower search over ids {1,2} (used by C01's quick tier, where only panics and digests matter)
+    pub fn shallow(d: u32, du: u32) -> C20 {
         let mut configs = Vec::new();
         for k in 0..2 {
+            let ids = vec![1, 2];
+            let n = RegSys::new(ids.clone()).enabled(&start(&ids, k)).len();
+            for first in 0..n {
+                configs.push((ids.clone(), d, du, k, first));
+            }
+        }
+        C20 { tier: Tier::Quick, configs }
+    }
+    pub fn new(tier: Tier) -> C20 {
+        let mut configs = Vec::new();
+        let mut push = |ids: Vec<usize>, d: u32, du: u32, k: usize| {
+            let n = RegSys::new(ids.clone()).enabled(&start(&ids, k)).len();
+            for first in 0..n {
+                configs.push((ids.clone(), d, du, k, first));
+            }
+        };
+        for k in 0..2 {
             match tier {
-                Tier::Quick => configs.push((vec![1, 2], 6, 4, k)),
+                Tier::Quick => push(vec![1, 2], 6, 4, k),
                 Tier::Thorough => {
-                    configs.push((vec![1, 2], 8, 5, k));
-                    configs.push((vec![1, 2, 3], 7, 4, k));
+                    push(vec![1, 2], 8, 5, k);
+                    push(vec![1, 2, 3], 7, 4, k);
                 }
             }
         }
@@ -314,17 +334,23 @@ impl C20 {
 
 impl Prop for C20 {
     fn doms(&self) -> Vec<Dom> {
+        let mut summary: Vec<(Vec<usize>, u32, u32, usize)> = self.configs.iter().map(|c| (c.0.clone(), c.1, c.2, c.3)).collect();
+        summary.dedup();
         vec![Dom::new("registry-bfs", self.configs.len() as u64, 1).budget(self.tier.pick(170, 3000)).note(format!(
-            "per configuration (store ids, merged depth, unmerged depth, start state 0 = empty registry / 1 = store 1 preloaded with two records): {:?}; ops: create x2 languages, destroy, add_record x3, set_limit x3 (0, 1, 10), highlight_with x2, run_search x3 per id, valid calls only; using_results read for every live id after every operation",
-            self.configs
+            "one case per (configuration, first operation); configurations (store ids, merged depth, unmerged depth, start state 0 = empty registry / 1 = store 1 preloaded with two records): {:?}; ops: create x2 languages, destroy, add_record x3, set_limit x3 (0, 1, 10), highlight_with x2, run_search x4 (empty, prefix, whole word, finished word with a trailing space) per id, valid calls only; using_results read for every live id after every operation",
+            summary
         ))]
     }
     fn run(&self, _dom: usize, idx: u64, cx: &mut Cx) {
-        let (ids, d, du, k) = &self.configs[idx as usize];
+        let (ids, d, du, k, first) = &self.configs[idx as usize];
         let sys = RegSys::new(ids.clone());
-        let out = bfs(&sys, cx, "merged_", vec![start(ids, *k)], *d, true, Duration::from_secs(self.tier.pick(120, 2400)), None);
-        cx.class(&format!("bfs:merged:ids{}:start{}:depth{}", ids.len(), k, out.depth_completed));
-        let out2 = bfs(&sys, cx, "unmerged_", vec![start(ids, *k)], *du, false, Duration::from_secs(self.tier.pick(40, 600)), Some(&out.seen));
+        let mut st = start(ids, *k);
+        let op = sys.enabled(&st)[*first].clone();
+        st.push(op);
+        // depth counts operations after the start state: the first one is fixed by the partition
+        let out = bfs(&sys, cx, "merged_", vec![st.clone()], *d - 1, true, Duration::from_secs(self.tier.pick(120, 2400)), None);
+        cx.class(&format!("bfs:merged:ids{}:start{}:depth{}", ids.len(), k, out.depth_completed + 1));
+        let out2 = bfs(&sys, cx, "unmerged_", vec![st], *du - 1, false, Duration::from_secs(self.tier.pick(40, 600)), Some(&out.seen));
         if out2.missing > 0 && !out.capped {
             cx.machinery(format!("C20 dedup cross-check: {} states reached without merging are unknown to the merged search", out2.missing));
         }
